@@ -171,25 +171,31 @@ func (p *Processor) OpenCDR(
 	}
 	if pduSessionInfo := chargingData.PDUSessionChargingInformation; pduSessionInfo != nil {
 		logger.ChargingdataPostLog.Debugln("PDU Session Charging Event")
-		chfCdr.PDUSessionChargingInformation = &cdrType.PDUSessionChargingInformation{
+		pduSessionCdr := &cdrType.PDUSessionChargingInformation{
 			PDUSessionChargingID: cdrType.ChargingID{
 				Value: int64(pduSessionInfo.ChargingId),
 			},
-			PDUSessionId: cdrType.PDUSessionId{
-				Value: int64(pduSessionInfo.PduSessionInformation.PduSessionID),
-			},
-			NetworkSliceInstanceID: &cdrType.SingleNSSAI{
-				SST: cdrType.SliceServiceType{
-					Value: int64(pduSessionInfo.PduSessionInformation.NetworkSlicingInfo.SNSSAI.Sst),
-				},
-				SD: &cdrType.SliceDifferentiator{
-					Value: []byte(pduSessionInfo.PduSessionInformation.NetworkSlicingInfo.SNSSAI.Sd),
-				},
-			},
-			DataNetworkNameIdentifier: &cdrType.DataNetworkNameIdentifier{
-				Value: asn.IA5String(pduSessionInfo.PduSessionInformation.DnnId),
-			},
 		}
+		// pduSessionInformation and the slice information inside it are optional on the wire
+		if pduSession := pduSessionInfo.PduSessionInformation; pduSession != nil {
+			pduSessionCdr.PDUSessionId = cdrType.PDUSessionId{
+				Value: int64(pduSession.PduSessionID),
+			}
+			if slicingInfo := pduSession.NetworkSlicingInfo; slicingInfo != nil && slicingInfo.SNSSAI != nil {
+				pduSessionCdr.NetworkSliceInstanceID = &cdrType.SingleNSSAI{
+					SST: cdrType.SliceServiceType{
+						Value: int64(slicingInfo.SNSSAI.Sst),
+					},
+					SD: &cdrType.SliceDifferentiator{
+						Value: []byte(slicingInfo.SNSSAI.Sd),
+					},
+				}
+			}
+			pduSessionCdr.DataNetworkNameIdentifier = &cdrType.DataNetworkNameIdentifier{
+				Value: asn.IA5String(pduSession.DnnId),
+			}
+		}
+		chfCdr.PDUSessionChargingInformation = pduSessionCdr
 	}
 
 	chfCdr.ChargingID.Value = int64(chargingData.ChargingId)
